@@ -14,6 +14,11 @@ THEOREMS = {
             "Cntgs.C14.elem_incomparable_trans", "Cntgs.C14.vec_lt_is_lexicographical"],
     "C15": ["Cntgs.C15.toInt_mod", "Cntgs.C15.memcpy_sound", "Cntgs.C15.stored_is_converted", "Cntgs.C15.lvalue_not_moved",
             "Cntgs.C15.rvalue_moved"],
+    "C11": ["Cntgs.C11.assign_copies_all_fields", "Cntgs.C11.copy_assign_keeps_source", "Cntgs.C11.move_assign_source",
+            "Cntgs.C11.swap_exchanges", "Cntgs.C11.swap_involutive", "Cntgs.C11.iter_add_sub", "Cntgs.C11.iter_diff",
+            "Cntgs.C11.iter_diff_add", "Cntgs.C11.iter_order", "Cntgs.C11.iter_trichotomy", "Cntgs.runs_ok"],
+    "C12": ["Cntgs.C12.from_reference", "Cntgs.C12.copy_assign_fixed", "Cntgs.C12.copy_assign_varying", "Cntgs.C12.move_assign_value",
+            "Cntgs.C12.swap_values", "Cntgs.C12.to_reference", "Cntgs.C12.independent"],
     "C05": ["Cntgs.C05.fields_greedy", "Cntgs.C05.alignUp_is_lowest", "Cntgs.C05.elements_greedy", "Cntgs.C05.units_tight"],
 }
 
